@@ -151,5 +151,6 @@ def check(run, replay=None):
     if not replay:
         # spec -> code: behaviours of the design model replayed on the real code; the dense pieces must be the model's (one per recorded step, in order) at every API return
         modelreplay.phase(run, ['OdeSystemSim_fixed_nofault'], "C06", ('Pieces', 'Lookup'), keep=None)
-    run.assumptions += ["histories keep one direction per system (the 'containing step' is ambiguous when steps overlap, DESIGN.md section 10)",
+    run.assumptions += ["where passes of one system overlap (integrate() calls that turned round) a query must be answered by A step containing it, and a recorded "
+                        "state must be reproduced bit for bit only where it is unique (no other piece contains that time except as an end with that state)",
                         "the O(h^4) clause is decided on the two rational-solution problems only; bound constant DenseMidQuotient = 8"]
